@@ -15,7 +15,8 @@ import codec_common as cc
 sys.path.insert(0, os.path.join(vlib.TOOLS, "c2g"))
 
 BIG = 1 << 62
-KNOWN_HUGE = "declared-size-over-2^62:owner:no-maximum"
+# the 31-byte text that declares 2^63 + 8 bytes (witness of C07_decode_old_refuted; refused since commit 5c6a588)
+WITNESS_5C6A588 = b"gAAAAAAAAAh6eNpLTAQAASUAww===\n\0"
 
 
 # ---------------------------------------------------------------------------------------------------------
@@ -116,6 +117,12 @@ def gen_dec_cases(ctx):
         n = len(d)
         # the untouched text through several output kinds (accepting and rejecting ones)
         add(t, "valid:" + name, nk=2, size_hint=n)
+        # a view of ZERO elements (any element size) for a nonzero declared size, without and with a maximum below the size;
+        # an owner of zero elements with a maximum below the size
+        if n > 0:
+            ez = rng.choice([1, 1, 2, 4, 8])
+            add(t, "zero-view", kind=(0, 0, ez, 0), maxsz=rng.choice([0, 0, 1, max(1, n - 1), n]))
+            add(t, "zero-owner-max", kind=(0, 1, ez, 0), maxsz=max(1, n - 1) if n > 1 else 0)
         for _ in range(nmut if len(d) <= 1000 else 3):      # the extracted model is slow on long Huffman streams
             m = rng.randrange(16)
             if m == 0:      # truncate anywhere
@@ -141,13 +148,9 @@ def gen_dec_cases(ctx):
                     add(t[:-1] + t, "twice", nk=1, size_hint=n)
             elif m == 5:    # rewrite the size header
                 ns = rng.choice([0, 1, max(0, n - 1), n + 1, 2 * n + 3, 255, 256, 65536, (1 << 32) - 1, 1 << 32, (1 << 62) - 1])
-                if ns >= (1 << 24):
-                    # a huge declared size only with a maximum or a view (out of memory is the documented exception)
-                    kind = rng.choice([(0, 0, 1, n), (0, 0, 4, 3), (0, 1, 1, 0), (1, 1, 1, 0)])
-                    mx = 0 if kind[1] == 0 else rng.choice([1, n, 1 << 20])
-                    add(text_of(ns, comp, lb), "size-huge", kind=kind, maxsz=mx)
-                else:
-                    add(text_of(ns, comp, lb), "size", nk=2, size_hint=ns)
+                # since 5c6a588 a declared size above 1032 x the compressed bytes is refused before anything is allocated:
+                # huge sizes go through every output kind and maximum
+                add(text_of(ns, comp, lb), "size-huge" if ns >= (1 << 24) else "size", nk=2, size_hint=min(ns, 1 << 20))
             elif m == 6:    # format character
                 add(text_of(n, comp, lb, fc=bytes([rng.choice([0x79, 0x5a, 0, 0x7b])])), "format", nk=1, size_hint=n)
             elif m == 7:    # corrupt the compressed stream
@@ -200,13 +203,18 @@ def gen_dec_cases(ctx):
     for c in range(256):
         t = base_t[:14] + bytes([c]) + base_t[15:]
         cases.append(dict(line=dec_line((0, 1, 1, 0), 0, t), text=t, kind=(0, 1, 1, 0), maxsz=0, tag="bytevalue"))
-    # a declared size the machine cannot provide, owner output, no maximum: libsc aborts in its allocator (documented exception)
-    t = text_of(0x68 << 32, zlib.compress(b"", 9), 61)
-    cases.append(dict(line=dec_line((0, 1, 4, 0), 0, t), text=t, kind=(0, 1, 4, 0), maxsz=0, tag="size-unallocatable"))
-    # the recorded defect: a declared size above 2^62, owner output, no maximum (known finding)
-    for ns in ((1 << 63) + 8, (1 << 64) - 1):
-        t = text_of(ns, zlib.compress(b"x" * 1000), 61)
-        cases.append(dict(line=dec_line((0, 1, 1, 0), 0, t), text=t, kind=(0, 1, 1, 0), maxsz=0, tag="size-over-2^62"))
+    # declared sizes no machine can provide, owner output, no maximum: refused since commit 5c6a588 (before it: one-byte
+    # allocation and a write behind it for sizes above 2^63, an abort of the allocator below)
+    for t in (WITNESS_5C6A588, text_of(0x68 << 32, zlib.compress(b"", 9), 61), text_of((1 << 63) + 8, zlib.compress(b"x" * 1000), 61),
+              text_of((1 << 64) - 1, zlib.compress(b"x" * 1000), 61), text_of((1 << 62) + 1, zlib.compress(b"x" * 1000), 61)):
+        for kind in ((0, 1, 1, 0), (1, 1, 1, 0), (0, 1, 8, 2)):
+            cases.append(dict(line=dec_line(kind, 0, t), text=t, kind=kind, maxsz=0, tag="size-over-2^62"))
+    # the largest size the guard lets through for a given amount of compressed data, and one more
+    for d in (bytes(1032 * 40), bytes(1032 * 41 + 5)):
+        comp = zlib.compress(d, 9)
+        for ns in (1032 * (9 + len(comp)) + 1031, 1032 * (9 + len(comp) + 1), len(d)):
+            t = text_of(ns, comp, 61)
+            cases.append(dict(line=dec_line((0, 1, 1, 0), 0, t), text=t, kind=(0, 1, 1, 0), maxsz=0, tag="ratio-boundary"))
     return cases
 
 
@@ -226,8 +234,6 @@ def judge_dec(ctx, c, out, variant):
         esz, cnt = 1, len(text)
     if out in ("CRASH", "TIMEOUT"):
         return ("%s:%s" % (out.lower(), c["tag"]), "sc_io_decode (%s build): %s" % (variant, "sanitizer report or abnormal termination" if out == "CRASH" else "no termination within the time limit"))
-    if out == "OUT-OF-MEMORY":
-        return None
     for flag in ("POSITIVE-RC", "VIEW-DAMAGED", "INPUT-MODIFIED"):
         if flag in out:
             return ("%s:%s" % (flag.lower(), c["tag"]), "sc_io_decode (%s build): %s" % (variant, flag))
@@ -414,35 +420,22 @@ def run(ctx):
         ctx.count_case(("dec", c["line"]), nontrivial=len(c["text"]) > 3)
         mo = model[i]
         hdr = declared(c["text"])
-        huge = (hdr is not None and hdr[0] > BIG and c["kind"][1] == 1 and (c["maxsz"] == 0 or c["maxsz"] >= BIG))
         for v in ("z", "nz"):
             o = outs[v][i] or "<missing>"
-            if o == "CRASH" and hdr is not None and (1 << 28) <= hdr[0] <= BIG and c["kind"][1] == 1 and (c["maxsz"] == 0 or c["maxsz"] >= hdr[0]) \
-                    and "ERROR: AddressSanitizer" not in incident_text[v].get(i, "") and "runtime error" not in incident_text[v].get(i, "") \
-                    and ("failed to allocate" in incident_text[v].get(i, "") or "Allocation" in incident_text[v].get(i, "") or "exit=-6" in incident_text[v].get(i, "")):
-                # the allocation of the declared size failed and libsc aborted: the documented exception ("cannot crash unless out of memory")
-                o = outs[v][i] = "OUT-OF-MEMORY"
-                stats["out_of_memory"] = stats.get("out_of_memory", 0) + 1
             stats[("ok_" if o.startswith("ok") else "err_") + v] += 1
             j = judge_dec(ctx, c, o, v)
             if j:
                 robj = dict(op="dec", line=c["line"], text=cc.hx(c["text"]), kind=list(c["kind"]), maxsz=c["maxsz"], tag=c["tag"], variant=v,
                             impl=o[:200], model=mo[:200], sanitizer=incident_text[v].get(i, ""))
-                if huge and o in ("CRASH",):
-                    report(KNOWN_HUGE, j[1] + " [" + incident_text[v].get(i, "")[:200] + "]", robj, known_key=KNOWN_HUGE)
-                else:
-                    report(j[0] + ":" + v, j[1] + " | case: " + c["line"][:120] + " | " + incident_text[v].get(i, "")[:300], robj)
+                report(j[0] + ":" + v, j[1] + " | case: " + c["line"][:120] + " | " + incident_text[v].get(i, "")[:300], robj)
         if mo in ("OOB", "NOFUEL"):
             stats["model_oob"] += 1
-            if not huge:
-                ctx.tie_broken("model leaves its bounds", "case %s: model %s (excluded by C07_decode_safe), libsc: %s / %s" % (c["line"][:100], mo, outs["z"][i], outs["nz"][i]))
-            elif outs["nz"][i] != "CRASH":
-                ctx.tie_broken("known finding no longer reproduces", "model %s, libsc without zlib: %s on %s" % (mo, outs["nz"][i], c["line"][:100]))
+            ctx.tie_broken("model leaves its bounds", "case %s: model %s (excluded by C07_decode_safe), libsc: %s / %s" % (c["line"][:100], mo, outs["z"][i], outs["nz"][i]))
             continue
         # tie: the build without zlib is the modelled code path, line by line
         on = outs["nz"][i] or "<missing>"
         canon = lambda s: "err" if s.startswith("err") else s
-        if have_model and on not in ("CRASH", "TIMEOUT", "OUT-OF-MEMORY") and canon(on) != canon(mo):
+        if have_model and on not in ("CRASH", "TIMEOUT") and canon(on) != canon(mo):
             ndis += 1
             if ndis <= 3:
                 ctx.tie_broken("sc_io_decode vs model (build without zlib)", "case %s: libsc %s, model %s" % (c["line"][:160], on[:120], mo[:120]))
@@ -510,7 +503,7 @@ def run(ctx):
     ctx.cov["disagreements_checked"] = 2 * len(alllines)
     ctx.cov["rule"] = ("valid texts built by Python (zlib levels 0/1/9, fixed / Huffman-only / stored / 7-byte stored blocks; data sizes around the 57-byte line; "
                        "random line-break bytes) x 16 structure-aware mutations (truncate, bit flip, junk byte, insert/delete, duplicate/drop line, size header rewrite incl. "
-                       "huge sizes under a maximum or a view, format character, compressed stream flip/truncate/extend, over- and undersized streams, zlib header variants, "
+                       "huge sizes, format character, compressed stream flip/truncate/extend, over- and undersized streams, zlib header variants, "
                        "broken stored blocks, break-only lines, moved padding, 75-character lines) x output kinds (owner / view of smaller, equal, larger capacity / in place; "
                        "element sizes 1,2,3,4,7,8) x maxima; every string of length <= %d over {NUL,'A','=','\\n'}; six shapes of every length 0..200; sc_puff on raw deflate "
                        "streams of six strategies with every single-bit flip (short streams), every truncation, short destinations, scanning mode, all 256 first bytes, random garbage. "
@@ -527,6 +520,5 @@ def run(ctx):
                                "zlib's uncompress (build with zlib): contract 'writes at most the given number of bytes', Section hypothesis of C07_decode_zlib_safe",
                                "Python's zlib/base64 modules as the independent reader of the oracle"]
     ctx.assumptions += ["input array has element size 1, output array is a valid sc_array (documented preconditions of sc_io_decode)",
-                        "a declared size the process cannot allocate is only generated together with a maximum or a view (sc_io.h: 'cannot crash unless out of memory')",
                         "sizes of objects in memory are below 2^62"]
     return "proof"
